@@ -10,12 +10,14 @@ placed after the event of the call that was in flight, and TLC validates the who
 (Trace_Mv2Core!TCrash): the recovered frame table must be the one before or the one after the in-flight call.
 """
 import concurrent.futures as cf
+import hashlib
 import json
 import os
 import random
 import shutil
 
-from common import (Outcome, ToolError, VERIF, cfg, log, run_harness, sample, seed, workdir, build_harness)
+from common import (Outcome, ToolError, VERIF, cfg, log, run_harness, run_tlc, sample, seed, workdir, build_harness)
+import disk2
 import eng_core
 import fsstate
 
@@ -125,12 +127,16 @@ def enumerate_states(lg, rng, power_budget, base, max_power_points=10**9, scenar
     seen = set()
     nmut = 0
 
+    main_sha = {}
+
     def keep(st):
         dg = fsstate.digest_state(st)
         if dg not in seen:
             seen.add(dg)
             uniq.append(dg)
             fsstate.materialise(st, os.path.join(base, dg))
+            if "m.mv2" in st:
+                main_sha.setdefault(disk2.sha(st["m.mv2"]), dg)
         return dg
 
     # calls made inside a begin_batch(skip_sync) .. end_batch window promise no durability: no power-loss states there
@@ -174,6 +180,7 @@ def enumerate_states(lg, rng, power_budget, base, max_power_points=10**9, scenar
             for lab, st in fs.power_states(rng, power_budget):
                 out.append((cn, cname, op.get("n", idx), "power", lab, phase, keep(st)))
     enumerate_states.keep = keep
+    enumerate_states.main_sha = main_sha
     return out, len(ops), nmut, uniq
 
 
@@ -220,7 +227,7 @@ def corruption_states(final, rng, quick, base, keep_fn):
     return out
 
 
-def probe_states(uniq, base, reg, wd, jobs, force_r=(), no_doctor=()):
+def probe_states(uniq, base, reg, wd, jobs, force_r=(), no_doctor=(), plain=()):
     """Runs the real recovery on each materialised directory; returns digest -> result."""
     keys = list(uniq)
     chunks = [keys[i::jobs] for i in range(jobs) if keys[i::jobs]]
@@ -230,7 +237,7 @@ def probe_states(uniq, base, reg, wd, jobs, force_r=(), no_doctor=()):
         lst = os.path.join(wd, "list%d.txt" % ci)
         with open(lst, "w") as f:
             for k, dg in enumerate(ch):
-                flags = ("d" if (k % 3 == 0 and dg not in no_doctor) else "") + ("r" if (k % 3 == 1 or dg in force_r) else "")
+                flags = "" if dg in plain else ("d" if (k % 3 == 0 and dg not in no_doctor) else "") + ("r" if (k % 3 == 1 or dg in force_r) else "")
                 f.write("%s\t%s\t%s\n" % (dg, os.path.join(base, dg), flags))
         outp = os.path.join(wd, "probe%d.ndjson" % ci)
         remaining = list(ch)
@@ -285,6 +292,7 @@ def probe_states(uniq, base, reg, wd, jobs, force_r=(), no_doctor=()):
     return results
 
 
+
 def owner_of(ev, name):
     if name in ("crash.panic", "crash.doctor.panic", "crash.ro.panic", "corrupt.panic"):
         return "C22"
@@ -308,6 +316,7 @@ def engine(tier, only=None):
     hs = only if only is not None else histories(quick, rng)
     jobs = 12
     all_paths = []
+    stage2 = []
     stats = {"histories": len(hs), "file_ops": 0, "crash_points": 0, "states": 0, "distinct_states": 0, "process_states": 0, "power_states": 0}
     samples = []
     for hname, ops in hs:
@@ -322,9 +331,26 @@ def engine(tier, only=None):
             corr = corruption_states(enumerate_states.final, rng, quick, sbase, enumerate_states.keep)
             stats["corruptions"] = stats.get("corruptions", 0) + len(corr)
         slow = set(c[3] for c in corr if c[0] in ("header.wal_size", "header.wal_offset")) if quick else set()
-        results = probe_states(uniq, sbase, reg, d, jobs, force_r=set(c[3] for c in corr), no_doctor=slow)
+        # stage 2: the file operations themselves (Trace_Mv2Disk); images stage 1 did not visit are probed too
+        main_sha = enumerate_states.main_sha
+        raw, extra, after_call, needed = disk2.walk(lg, ops, set(main_sha))
+        plain = set()
+        for h, img in extra.items():
+            tag = "img-" + h
+            fsstate.materialise({"m.mv2": img}, os.path.join(sbase, tag))
+            uniq.append(tag)
+            plain.add(tag)
+        extra.clear()
+        results = probe_states(uniq, sbase, reg, d, jobs, force_r=set(c[3] for c in corr), no_doctor=slow, plain=plain)
         shutil.rmtree(sbase, ignore_errors=True)
-        ndist = len(uniq)
+        evs2, chain = disk2.events(raw, after_call, needed, lambda h: results.get(main_sha.get(h, "img-" + h)))
+        for e in evs2:
+            e["history"] = hname
+        stage2.append((hname, ops, evs2))
+        stats["stage2_events"] = stats.get("stage2_events", 0) + len(evs2)
+        stats["stage2_extra_images"] = stats.get("stage2_extra_images", 0) + len(plain)
+        ndist_extra = len(plain)
+        ndist = len(uniq) - ndist_extra
         stats["file_ops"] += nops
         stats["crash_points"] += nmut
         stats["states"] += len(states)
@@ -390,8 +416,106 @@ def engine(tier, only=None):
         if dgn.get("stuck_at") is not None and not dgn["mismatches"]:
             findings.append({"owner": "C02", "field": "no-action", "kind": "?", "call": "?", "phase": "?", "variant": "", "at": dgn["stuck_at"],
                              "history": "?", "res": None, "scenario": []})
+    f2, acc2 = validate_stage2(stage2, wd, all_paths)
+    findings += f2
+    stats["stage2_histories_accepted"] = acc2
+    if only is None:
+        stats["mv2disk_model"] = model_check(quick)
     return {"stats": stats, "accepted": accepted, "events": events, "findings": findings, "samples": samples,
             "undiagnosed": sum(1 for d in diags if d.get("undiagnosed"))}
+
+
+def mc_cfg(defects=(), mixed=False, ops=3, crashes=3):
+    return cfg({"Ino": "<- MCIno", "Names": "<- MCNames", "MaxOps": ops, "MaxCrashes": crashes, "MixedFaults": "TRUE" if mixed else "FALSE",
+                "Defects": "{" + ",".join('"%s"' % d for d in defects) + "}"},
+               invariants=("TypeOK", "ProcSafe", "PowerSafeMC", "RecoveryStable", "IdleDurable"))
+
+
+SELF_TESTS = [(("no_wal_fsync",), False, "PowerSafeMC"), (("no_stage_fsync",), False, "PowerSafeMC"), (("no_dirsync",), False, "PowerSafeMC"),
+              (("inplace_commit",), False, "ProcSafe"), (("inplace_recovery",), False, "ProcSafe"), ((), True, "PowerSafeMC")]
+
+
+def model_check(quick):
+    """Mv2Disk, the writer with crashes and power losses at every step: the design as built must satisfy the invariants, and
+    each named deviation (and the mixed-fault model) must violate the one it is expected to (non-vacuity of the invariants)."""
+    jobs = [("asbuilt", mc_cfg(ops=3 if quick else 4, crashes=3 if quick else 4), None)]
+    for (defs, mixed, inv) in SELF_TESTS:
+        jobs.append(("+".join(defs) or "mixed_faults", mc_cfg(defs, mixed), inv))
+
+    def one(j):
+        tag, c, inv = j
+        return tag, inv, run_tlc("MC_Mv2Disk", c, "mcdisk-" + tag, workers=2, timeout=1500)
+
+    out = {}
+    with cf.ThreadPoolExecutor(max_workers=4) as ex:
+        for tag, inv, r in ex.map(one, jobs):
+            if inv is None:
+                if not r.ok:
+                    raise ToolError("Mv2Disk (as built) does not satisfy its invariants: %s\n%s" % (r.violated, r.output[-1500:]))
+                out["model_states"] = r.distinct
+                out["model_generated"] = r.generated
+                out["model_depth"] = r.depth
+            else:
+                if r.violated != inv:
+                    raise ToolError("self-test of Mv2Disk: deviation %s should violate %s, TLC says %s" % (tag, inv, r.violated))
+                out.setdefault("deviations_detected", []).append("%s -> %s" % (tag, inv))
+    return out
+
+
+def stage2_cfg():
+    return cfg({"Ino": "<- TIno", "Names": "<- TNames", "MaxOps": 0, "MaxCrashes": 0, "MixedFaults": "FALSE", "Defects": "{}", "Debug": "TRUE"},
+               spec="TraceSpec", postcondition="Accept")
+
+
+def validate_stage2(stage2, wd, base_paths):
+    """All histories in one TLC run (a `reset` event between them).  Debug = TRUE: a failed check prints MISMATCH and the
+    run goes on, so every bad state of every history is listed.  Returns (findings, #histories without mismatch)."""
+    if not stage2:
+        return [], 0
+    lines = []
+    where = []          # line number -> (history index, event)
+    for hi_, (hname, ops, evs) in enumerate(stage2):
+        lines.append(json.dumps({"ev": "reset", "history": hname}))
+        where.append((hi_, None))
+        for e in evs:
+            lines.append(json.dumps(e))
+            where.append((hi_, e))
+    tp = os.path.join(wd, "disk2.ndjson")
+    with open(tp, "w") as f:
+        f.write("\n".join(lines) + "\n")
+    r = run_tlc("Trace_Mv2Disk", stage2_cfg(), "disk2", workers=1, timeout=1800, depth_first=True, java_opts="-Xmx4g", env={"TRACE": tp})
+    import re
+    m = re.search(r'"TRACE-RESULT", (\d+), (\d+)', r.output)
+    if not m or int(m.group(1)) != len(lines):
+        raise ToolError("Trace_Mv2Disk did not consume the recording (%s of %d events): %s" % (m.group(1) if m else "?", len(lines), r.output[-1500:]))
+    bad = set()
+    findings = []
+    for mm in re.finditer(r'"MISMATCH", (\d+), "([a-z.]+)"', r.output):
+        li, name = int(mm.group(1)), mm.group(2)
+        hidx, ev = where[li - 1]
+        if name == "disk.tool":
+            raise ToolError("Trace_Mv2Disk met an image whose recovery class was not computed (event %d, history %s)" % (li, stage2[hidx][0]))
+        bad.add(hidx)
+        hname, ops, evs = stage2[hidx]
+        c = ev.get("c", 0)
+        callname = ev.get("call") or ev.get("k") or "?"
+        base_ev = {}
+        try:
+            for ln in open(base_paths[hidx]):
+                b = json.loads(ln)
+                if b.get("n") == c and b.get("ev") not in ("reset", "crash", "corrupt"):
+                    base_ev = b
+                    break
+        except (OSError, IndexError):
+            pass
+        owner = "C03" if name in ("disk.power", "disk.ack") else ("C04" if callname == "open" else "C02")
+        findings.append({"owner": owner, "field": name, "kind": "power" if owner == "C03" else "process", "call": callname,
+                         "chunked": bool(base_ev.get("x", {}).get("nchunks", 0)),
+                         "grew": base_ev.get("obs", {}).get("file", {}).get("wal_size", 65536) != 65536 and callname in ("put", "update"),
+                         "err": "", "phase": ev.get("ev"), "variant": "every image since the last fsync" if owner == "C03" else "prefix",
+                         "at": ev.get("at", -1), "history": hname, "res": {"recs": ev.get("recs")},
+                         "scenario": ops[:c] if c else ops})
+    return findings, len(stage2) - len(bad)
 
 
 PROP_TEXT = {
@@ -428,7 +552,7 @@ def run_prop(prop, tier, out: Outcome):
     return {
         "states": max(1, st["distinct_states"]), "transitions": max(1, st["states"]),
         "traces_validated_against_impl": r["accepted"], "evaluations": st["states"], "distinct_nontrivial": st["distinct_states"],
-        "rule": "histories recorded under the LD_PRELOAD recorder; a crash state = the directory after a prefix of the recorded file operations (process crash) or after dropping / reordering / tearing un-synced operations (power loss); each distinct directory is probed with the real recovery and judged by TLC (Trace_Mv2Core!TCrash) against the states the history allows; this property: %s. `states` = distinct directories probed, `transitions` = crash states judged (a directory may be reached at several points). Non-trivial = distinct directory." % PROP_TEXT.get(prop, ""),
+        "rule": "histories recorded under the LD_PRELOAD recorder; stage 1: a crash state = the directory after a prefix of the recorded file operations (process crash) or after dropping / reordering / tearing un-synced operations (power loss); each distinct directory is probed with the real recovery and judged by TLC (Trace_Mv2Core!TCrash) against the states the history allows; stage 2: every recorded system call is one event of Trace_Mv2Disk (file-system layer of Mv2Disk: volatile / durable directory, per-inode image and the images it may fall back to), the image a write leaves is abstracted by what the real recovery shows on it, and ProcSafe / PowerSafe / AckDurable are evaluated on every event (all images since the last fsync, not a sample); Mv2Disk itself (writer + crash + power loss + recovery at every step) is model-checked, and each named deviation is shown to violate an invariant. This property: %s. `states` = distinct directories probed, `transitions` = crash states judged (a directory may be reached at several points). Non-trivial = distinct directory." % PROP_TEXT.get(prop, ""),
         "samples": r["samples"], "exhaustive": False,
         "stats": st, "findings_owned": len(mine), "findings_all_properties": len(r["findings"]), "recordings_undiagnosed": r["undiagnosed"],
         "engine_result_from_cache": r["from_cache"], "engine_wall_s": r.get("engine_wall_s"),
